@@ -75,6 +75,7 @@ def max_var(prog):
         for s in b:
             k = s[0]
             if k == "let": m[0] = max(m[0], s[1]); we(s[3])
+            elif k == "fnlit": m[0] = max(m[0], s[1], s[2])
             elif k == "assign": we(s[2])
             elif k == "cassign": we(s[3])
             elif k == "assignf": we(s[3])
